@@ -31,9 +31,14 @@ class Context():
             return
         if name in self._context[namespace][entity]:
             decl = self._context[namespace][entity][name]
-            if decl in self._namespaces:
-                del self._namespaces[decl]
             del self._context[namespace][entity][name]
+            # Keep the reverse lookup while the declaration is still registered
+            # in this namespace under another kind (e.g., remove_var() on the
+            # name of a function only clears the 'decls' slot).
+            if decl in self._namespaces and not any(
+                    m.get(name) is decl
+                    for m in self._context[namespace].values()):
+                del self._namespaces[decl]
 
     def add_type(self, namespace, type_name, t):
         self._add_entity(namespace, 'types', type_name, t)
